@@ -19,6 +19,9 @@ ID = "C08"
 TITLE = "comparisons on a missing field"
 LEVEL = "exploration"
 RULE = (
+    "Sizes: quick runs part A on 2 pool records + 6 boundary records and one stream seed; thorough on 110 records (10 "
+    "seed-dependent pools) with 6 additional nesting contexts (not not, and-or, all, nested any, ...), derived operands "
+    "on the boundary records too, 20 stream seeds of 60 records and 10 seeds of 48 records for parts C-E.  "
     "Part A (exhaustive, identical for every seed): operator {== != < > <= >= in, not in} x position of the missing "
     "operand {left, right, both} x other operand {int, float, text, empty text, bytes, None, bool, list, tuple, empty "
     "list, every field kind of the 33-field pool record, typed matchers, net.* constructors, names(r), name(r)} "
@@ -37,20 +40,24 @@ RULE = (
     "of GroupedRecord objects of varying composition (a group lacking the field first, then groups having it, and the "
     "other order) over the binary stream formats.  Part E: plain JSON-lines sources (hand-written objects, each a record "
     "type of its own keys; the compared key present in some objects only, both orders) through RecordReader and rdump.  "
-    "A case is non-trivial when at least one engine "
+    "Part F: generators over a missing field (every clause position, nested generator iterables, if clauses, "
+    "element).  Part G: comparisons on a field that a NESTED record lacks (r.sub.x, r.sub.inner.x, loop variables over a "
+    "record[] field whose elements are of several types) in the table and through match / RecordReader / rdump; oracle: "
+    "the missing-field rule applied per nested record.  Part H: the lacked field is named like an attribute or method "
+    "records have or could get (dir(Record), dir(GroupedRecord), dict / list / str methods).  A case is non-trivial when at least one engine "
     "evaluation / one stream with records having and lacking the field was run; distinct = distinct (expression, "
     "record or stream seed, access path)."
 )
 ASSUMPTIONS = [
     "ill-typed membership (missing field `in` a non-container such as an int) is not part of the enumerated grammar",
     "identity operators (is / is not) are not comparisons in the sense of the property and are not enumerated",
-    "iteration over a missing field (any(x for x in r.missing)) is not a comparison on the field and is not enumerated",
+    "iterating a missing field yields nothing (any -> False, all -> True), as the interpreted engine documents; attributes of a present but None-valued record field (r.sub.x with sub unset) are not missing fields and are not enumerated",
     "lower() / upper() of a missing field stay missing and are demanded false-and-never-raise; the text-producing calls str() / repr() / name() / names() / get_type() on a missing field yield ordinary text on the unchanged tree ('str(r.missing) != x' is true in both engines): they are evaluated and counted as observations (events observed:text-call-on-missing:*), not judged",
     "derived operands (arithmetic on / attribute chains of the missing field) are demanded false-and-never-raise from both engines for the operators of the language (+ * / % & |)",
     "stream selectors are comparison templates whose reference value is defined on every record of the stream",
 ]
 SHARDS = {"quick": 8, "thorough": 16}
-BUDGET_S = {"quick": 150, "thorough": 900}
+BUDGET_S = {"quick": 150, "thorough": 2400}
 
 ANCHORS = [
     "flow.record.selector:NoneObject.__eq__",
@@ -75,6 +82,11 @@ ANCHORS = [
 OPS = ["==", "!=", "<", ">", "<=", ">=", "in", "not in"]
 CONTEXTS = [("bare", "%s", False), ("not", "not (%s)", True), ("and-true", "(%s) and True", False), ("or-false", "(%s) or False", False),
             ("any", "any(%s for _v in [1])", False)]
+
+# thorough only: one step deeper
+MORE_CONTEXTS = [("not-not", "not (not (%s))", False), ("and-or", "((%s) and True) or False", False), ("all", "all(%s for _v in [1, 2])", False),
+                 ("nested-any", "any(any(%s for _w in [1]) for _v in [1, 2])", False), ("or-not", "not ((%s) or False)", True),
+                 ("all-empty", "all(%s for _v in [])", True)]
 
 # (kind, source, may be the container on the right of `in` when the missing field is on the left)
 OTHERS = [
@@ -102,6 +114,8 @@ DERIVED = [
     # links with the reserved single-underscore names (metadata of a nested record field some record types lack)
     ("attr", "r.zz._source"), ("attr", "r.zz._generated.year"), ("attr", "r.zz._version"), ("attr", "r.zz._classification"),
     ("attr", "r.zz.sub._source"), ("attr", "r.zz._desc.name"), ("attr", "r.zz.sub._generated.year + 1"),
+    # a field that a NESTED record lacks (r.sub is a sel/sub record: ss, sn, sip, su)
+    ("nested", "r.sub.zz"), ("nested", "r.sub.zz.a"), ("nested", "r.sub.nope + 1"), ("nested", "lower(r.sub.zz)"), ("nested", "r.sub.zz._source"),
     # helper functions applied to the missing field: the result is still the missing field
     ("helper", "lower(r.zz)"), ("helper", "upper(r.zz)"), ("helper", "lower(upper(r.zz))"), ("helper", "lower(r.zz.a)"),
     ("helper", "upper(r.zz + 'x')"), ("helper", "lower(r.zz) + 'x'"), ("helper", "lower(r.zz._source)"), ("helper", "Type.nosuchtype"),
@@ -109,6 +123,23 @@ DERIVED = [
     ("format", "'%s' % r.zz"), ("format", "'%d' % r.zz"), ("format", "b'%s' % r.zz"), ("format", "'%s' % r.zz.a"), ("format", "'port %s' % (r.zz + 1)"),
     ("format-tuple", "'%s-%s' % (r.zz, 1)"), ("format-tuple", "'%s-%s' % (r.n, r.zz)"), ("format-tuple", "'%d' % (r.zz,)"),
 ]
+def attribute_like_names():
+    """Field names a record type may LACK although every record object has (or could plausibly get) an attribute of
+    that name: public attributes / methods of Record and GroupedRecord on this tree, dict / list / str method names and a
+    few classics.  Names the pool record declares as fields are dropped."""
+    import keyword
+
+    from flow.record import GroupedRecord, Record
+
+    names = {n for n in set(dir(Record)) | set(dir(GroupedRecord)) if not n.startswith("_")}
+    names |= {n for n in set(dir(dict)) | set(dir(list)) if not n.startswith("_")}
+    names |= {"name", "fields", "records", "descriptors", "type", "desc", "value", "data", "size", "length", "format", "lower", "upper", "strip",
+              "split", "join", "encode", "find", "replace", "startswith", "isdigit", "real", "imag", "year", "path", "parent", "filename"}
+    declared = {f for _, f in selgen.MAIN_FIELDS}
+    return sorted(n for n in names if n not in declared and not keyword.iskeyword(n) and n.isidentifier())
+
+
+ATTR_OTHERS = ("'x'", "1", "None", "['beta', 'x']", "r.s", "r.n")
 DERIVED_OTHERS = ["0", "1", "5", "'x'", "'root'", "r.s", "'xrootx'", "None", "r.n", "[0]", "False", "'443'", "b'x'", "['beta', 'x']", "2000", "['a']",
                   "net.ipv4.Subnet('10.0.0.0/8')", "net.ipnetwork('10.0.0.0/8')", "net.IPNetwork('::/0')", "(1, 'x')"]
 DERIVED_CONTAINERS = ("[", "(", "net.ipv4.Subnet", "net.ipnetwork", "net.IPNetwork", "'root'", "'xrootx'", "r.s")   # may stand on the right of in / not in
@@ -174,6 +205,13 @@ def classify_derived(engine, category, got, exc):
     # sentinel (through its repr, or TypeError for %d / bytes) instead of deferring to it
     if engine == "compiled" and category in ("format", "format-tuple") and bad:
         return "compiled-str-format-missing-field"
+    # compiled engine: a nested record (value of a record field, element of a record[] field) is handed out unwrapped,
+    # so a field IT lacks is an AttributeError instead of the sentinel
+    if engine == "compiled" and category == "nested" and got[0] == "E" and isinstance(exc, AttributeError):
+        return "compiled-nested-record-missing-field"
+    # compiled engine: the sentinel is not iterable
+    if engine == "compiled" and category == "iter" and got[0] == "E" and isinstance(exc, TypeError):
+        return "compiled-iterating-missing-field"
     return None
 
 
@@ -240,10 +278,30 @@ def pool_for(ctx, seed):
     return pools[seed]
 
 
+class ExplainedSelector:
+    """The interpreted engine entered through Selector.explain_selector(): same verdict, and no exception, as match()."""
+
+    def __init__(self, expr):
+        from flow.record.selector import Selector
+
+        self.sel = Selector(expr)
+
+    def match(self, rec):
+        explain = getattr(self.sel, "explain_selector", None)
+        if explain is None:
+            return self.sel.match(rec)   # entry point absent on this tree: nothing to add
+        res = explain(rec)
+        for attr in ("backtrace", "referenced_fields"):   # the result object must be usable as well
+            v = getattr(res, attr, None)
+            if callable(v):
+                v()
+        return res.result
+
+
 def engines():
     from flow.record.selector import CompiledSelector, Selector
 
-    return (("interpreted", Selector), ("compiled", CompiledSelector))
+    return (("interpreted", Selector), ("compiled", CompiledSelector), ("interpreted-explain", ExplainedSelector))
 
 
 # same-name descriptors: two record types called alike, only one has the compared field `k`
@@ -264,6 +322,27 @@ PLAIN_TEMPLATES = [
     ("r.user != 'root' and r.pid != 5", None), ("field_equals(r, ['user', 'host'], ['ROOT', 'alpha'])", None),
 ]
 PLAIN_VIAS = ("reader-text", "reader-compiled", "rdump", "rdump-n")
+
+
+# the interpreted engine's fields(<type>) helper: must answer for the CURRENT record, whatever the selector object saw before
+FIELDS_TEMPLATES = ["any(f.name == 'k' for f in fields('varint'))", "all(f.name != 'k' for f in fields('varint'))",
+                    "any(f.name == 'k' for f in fields('varint')) and r.k > 1", "any(f.name == 's' for f in fields('string')) and has_field(r, 'k')",
+                    "not any(f.name == 'k' for f in fields('varint'))"]
+
+
+def fields_expected(expr, rec):
+    """Model of the fields() templates from the record's own descriptor."""
+    has_k = any(t == "varint" and f == "k" for t, f in rec._desc.get_field_tuples())
+    has_s = any(t == "string" and f == "s" for t, f in rec._desc.get_field_tuples())
+    if expr.startswith("all("):
+        return not has_k
+    if expr.startswith("not "):
+        return not has_k
+    if "r.k > 1" in expr:
+        return has_k and rec.k is not None and rec.k > 1
+    if "'s'" in expr:
+        return has_s and "k" in rec._desc.fields
+    return has_k
 
 
 GROUPED_EXTRA = ["r.f >= 1.5", "r.t == 'Hello'", "'ell' in r.t", "r.k > 1 and r.f > 1", "has_field(r, 'k')"]
@@ -301,7 +380,7 @@ def generate(ctx):
     recsets = [(TABLE_POOL_SEED, ri) for ri in (0, 6)]
     if not ctx.quick:
         recsets += [(TABLE_POOL_SEED, ri) for ri in (1, 2, 3, 4, 5, 7, 8, 9)]
-        recsets += [(subseed("c08", ctx.seed, "pool", j), ri) for j in range(4) for ri in range(10)]
+        recsets += [(subseed("c08", ctx.seed, "pool", j), ri) for j in range(10) for ri in range(10)]
     recsets += [("boundary", ri) for ri in range(6)]   # present operands at data boundaries (same for every seed)
     idx = 0
     for pool_seed, ri in recsets:
@@ -310,15 +389,17 @@ def generate(ctx):
                 yield {"k": "table", "op": op, "pos": pos, "kind": kind, "other": src, "container": container, "cmp": cmp_src,
                        "pool": pool_seed, "rec": ri}
             idx += 1
-        if pool_seed == "boundary":
-            continue   # derived operands and helpers do not look at the present values
-        for category, dsrc in DERIVED:
+        if pool_seed == "boundary" and ctx.quick:
+            continue   # quick: derived operands and helpers hardly look at the present values; thorough runs them too
+        for category, dsrc in DERIVED + [("attrname", "r." + n) for n in attribute_like_names()]:
             for op in OPS[:6] + ["in"] + (["not in"] if category.startswith("format") or category == "helper" else []):
                 for o in DERIVED_OTHERS:
                     if op in ("in", "not in") and not o.startswith(DERIVED_CONTAINERS):
                         continue
                     if category.startswith("format") and o.startswith("net."):
                         continue   # a formatted text is no address: ill-typed
+                    if category == "attrname" and o not in ATTR_OTHERS:
+                        continue
                     for fmt in ("%s {op} {o}", "{o} {op} %s"):
                         if op in ("in", "not in") and fmt.startswith("{o}") and category != "helper":
                             continue
@@ -352,19 +433,23 @@ def generate(ctx):
                 yield {"k": "helper", "expr": "has_field(r, %r)" % f, "pool": pool_seed, "rec": ri}
             idx += 1
     # ---- part C: two descriptors with the same name, only one has the field; both orders
-    for si in range(ctx.scale(1, 4)):
+    for si in range(ctx.scale(1, 10)):
         sseed = subseed("c08", ctx.seed, "same", si)
         for order in ("with-field-first", "without-field-first"):
-            for ti, expr in enumerate(SAME_TEMPLATES + GROUPED_TYPED[:4]):
-                for vi, via in enumerate(SAME_VIAS):
+            for ti, expr in enumerate(SAME_TEMPLATES + GROUPED_TYPED[:4] + FIELDS_TEMPLATES):
+                for vi, via in enumerate(SAME_VIAS + ("match-fresh-interpreted",)):
+                    if "fields(" in expr and via in ("match-one-compiled", "match-fresh-compiled", "reader-compiled", "rdump"):
+                        continue   # fields() is an interpreted-engine helper
+                    if via == "match-fresh-interpreted" and "fields(" not in expr:
+                        continue
                     fmts = [FORMATS[(ti + vi + si) % len(FORMATS)]] if (ctx.quick or via.startswith("match")) else FORMATS
                     for fmt in fmts:
                         if ctx.mine(idx):
                             yield {"k": "same-name", "expr": expr, "ti": ti, "order": order, "via": via, "fmt": fmt, "s": sseed,
-                                   "n": ctx.scale(10, 24)}
+                                   "n": ctx.scale(10, 48)}
                         idx += 1
     # ---- part E: plain JSON lines (heterogeneous objects, each of its own keys), both orders
-    for si in range(ctx.scale(1, 4)):
+    for si in range(ctx.scale(1, 10)):
         sseed = subseed("c08", ctx.seed, "plain-json", si)
         for order in ("with-field-first", "without-field-first"):
             for ti, (expr, fkey) in enumerate(PLAIN_TEMPLATES):
@@ -373,10 +458,41 @@ def generate(ctx):
                     for flavour in flavours:
                         if ctx.mine(idx):
                             yield {"k": "plain-json", "expr": expr, "field": fkey, "ti": ti, "order": order, "via": via, "flavour": flavour,
-                                   "fmt": ("jsonl", "json")[(ti + si) % 2], "s": sseed, "n": ctx.scale(10, 24)}
+                                   "fmt": ("jsonl", "json")[(ti + si) % 2], "s": sseed, "n": ctx.scale(10, 48)}
+                        idx += 1
+    # ---- part F: generators over a missing field (any clause position, nested iterables, if clauses, element)
+    for pool_seed, ri in recsets[:ctx.scale(2, 30)]:
+        if pool_seed == "boundary":
+            continue
+        for gi in range(len(GEN_MISSING)):
+            if ctx.mine(idx):
+                yield {"k": "gen-missing", "gi": gi, "expr": GEN_MISSING[gi][0], "pool": pool_seed, "rec": ri}
+            idx += 1
+    # ---- part G: nested records (record / record[] values) that lack the compared field
+    ntemplates = nested_templates()
+    for si in range(ctx.scale(1, 10)):
+        sseed = subseed("c08", ctx.seed, "nested", si)
+        for ti, t in enumerate(ntemplates):
+            vias = [SAME_VIAS[(ti + j) % len(SAME_VIAS)] for j in range(3)] if ctx.quick else SAME_VIAS
+            for vi, via in enumerate(dict.fromkeys(vias)):
+                if ctx.mine(idx):
+                    yield {"k": "nested", "expr": t["expr"], "t": t, "ti": 0, "order": "mixed", "via": via, "fmt": ("records", "records.gz")[(ti + vi) % 2],
+                           "s": sseed, "n": ctx.scale(12, 48)}
+                idx += 1
+    # ---- part H: heterogeneous streams in which the LACKED field is named like an attribute / method records (could) have
+    for si in range(ctx.scale(1, 6)):
+        sseed = subseed("c08", ctx.seed, "attr-named", si)
+        for ni, fname in enumerate(ATTR_STREAM_NAMES):
+            for order in ("with-field-first", "without-field-first"):
+                for ti, tmpl in enumerate(ATTR_STREAM_TEMPLATES):
+                    vias = [PLAIN_VIAS[(ni + ti) % len(PLAIN_VIAS)]] if ctx.quick else PLAIN_VIAS
+                    for via in vias:
+                        if ctx.mine(idx):
+                            yield {"k": "attr-named", "expr": tmpl.format(f=fname), "field": fname, "ti": ni, "order": order, "via": via,
+                                   "fmt": FORMATS[(ni + ti + si) % len(FORMATS)], "s": sseed, "n": ctx.scale(10, 40)}
                         idx += 1
     # ---- part D: grouped records of different composition (all GroupedRecord objects share one class)
-    for si in range(ctx.scale(1, 4)):
+    for si in range(ctx.scale(1, 10)):
         sseed = subseed("c08", ctx.seed, "grouped", si)
         for order in ("with-field-first", "without-field-first"):
             for ti, expr in enumerate(SAME_TEMPLATES + GROUPED_EXTRA + GROUPED_TYPED):
@@ -387,11 +503,11 @@ def generate(ctx):
                     for fmt in fmts:
                         if ctx.mine(idx):
                             yield {"k": "grouped", "expr": expr, "ti": ti, "order": order, "via": via, "fmt": fmt, "s": sseed,
-                                   "n": ctx.scale(10, 24)}
+                                   "n": ctx.scale(10, 48)}
                         idx += 1
     # ---- part B: heterogeneous streams
     templates = stream_templates()
-    nseeds = ctx.scale(1, 10)
+    nseeds = ctx.scale(1, 20)
     combos = [(via, fmt) for via in VIAS for fmt in FORMATS]
     for si in range(nseeds):
         sseed = subseed("c08", ctx.seed, "stream", si)
@@ -399,7 +515,7 @@ def generate(ctx):
             picks = [(via, FORMATS[(ti + j) % len(FORMATS)]) for j, via in enumerate(VIAS)] if ctx.quick else combos
             for via, fmt in dict.fromkeys(picks):
                 if ctx.mine(idx):
-                    yield {"k": "stream", "expr": t["expr"], "meta": t["meta"], "via": via, "fmt": fmt, "s": sseed, "n": ctx.scale(14, 30)}
+                    yield {"k": "stream", "expr": t["expr"], "meta": t["meta"], "via": via, "fmt": fmt, "s": sseed, "n": ctx.scale(14, 60)}
                 idx += 1
 
 
@@ -409,7 +525,7 @@ def check_comparison(ctx, case, rec, cmp_src, classify):
     bare = {}
     for engine, cls in engines():
         bare[engine] = run_engine(cls, cmp_src, rec)
-    for cname, wrap, expected in CONTEXTS:
+    for cname, wrap, expected in (CONTEXTS if ctx.quick else CONTEXTS + MORE_CONTEXTS):
         expr = wrap % cmp_src
         for engine, cls in engines():
             got, exc = bare[engine] if cname == "bare" else run_engine(cls, expr, rec)
@@ -455,6 +571,9 @@ def exec_table(ctx, case):
 
 def exec_derived(ctx, case):
     rec = pool_for(ctx, case["pool"])[case["rec"]]
+    if case["category"] == "nested" and rec.sub is None:
+        ctx.event("skipped:nested-record-field-unset")
+        return
     ctx.cell("derived", case["category"], case["op"])
     ctx.nontrivial("derived", case["cmp"], case["pool"], case["rec"])
     if case["op"] in OPS and "pos" in case:
@@ -878,7 +997,12 @@ def exec_same_name(ctx, case):
                     f.write(json.dumps(o) + "\n")
         cache[key] = (path, records)
     if key not in cache:
-        records = build_grouped(case["s"], order, case["n"], ti, "Type." in expr) if grouped else build_same(case["s"], order, case["n"], ti)
+        if case["k"] == "nested":
+            records = build_nested(case["s"], case["n"])
+        elif case["k"] == "attr-named":
+            records = build_attr_named(case["s"] + ti, case["n"], case["field"], order)
+        else:
+            records = build_grouped(case["s"], order, case["n"], ti, "Type." in expr) if grouped else build_same(case["s"], order, case["n"], ti)
         path = os.path.join(ctx.state["tmp"], "%s-%x-%s-%d-%d.%s" % (case["k"], case["s"], order, case["n"], ti, fmt))
         w = RecordWriter(path)
         for r in records:
@@ -888,7 +1012,11 @@ def exec_same_name(ctx, case):
         cache[key] = (path, records)
     path, records = cache[key]
     try:
-        if re.fullmatch(r"r\.\w+ \+ 1 > \d+", expr):
+        if case["k"] == "nested":
+            keep = [nested_expected(case["t"], r) for r in records]
+        elif "fields(" in expr:
+            keep = [fields_expected(expr, r) for r in records]
+        elif re.fullmatch(r"r\.\w+ \+ 1 > \d+", expr):
             keep = [expr[2:].split(" ")[0] in r._desc.fields and ref_match(expr, r) for r in records]
         else:
             keep = [ref_match(expr, r, lenient=True) for r in records]
@@ -925,15 +1053,172 @@ def exec_same_name(ctx, case):
     if actual == expected and err is None and not swallowed:
         ctx.event("held")
         return
-    ctx.event("VIOLATION")
-    ctx.violation(None, "%s are not filtered like the reference filter (%s)"
-                  % ("grouped records of different composition (some lack the field)" if grouped
+    key = None
+    if case["k"] == "nested" and via in ("match-one-compiled", "match-fresh-compiled", "reader-compiled", "rdump"):
+        # explained by the compiled engine handing out nested records unwrapped iff the output is exactly the records
+        # matched before the first AttributeError of that engine
+        sim, hit = [], False
+        for r, k in zip(records, keep):
+            g, exc = run_engine(CompiledSelector, expr, r)
+            if g[0] == "E":
+                hit = isinstance(exc, AttributeError)
+                break
+            if g != ("V", k):
+                hit = False
+                break
+            if k:
+                sim.append(ident(r))
+        if hit and actual == sim:
+            key = "compiled-nested-record-missing-field"
+    ctx.event("known:" + key if key else "VIOLATION")
+    ctx.violation(key, "%s are not filtered like the reference filter (%s)"
+                  % ("records whose nested records lack the field" if case["k"] == "nested"
+                     else "records lacking a field named like a record attribute" if case["k"] == "attr-named"
+                     else "grouped records of different composition (some lack the field)" if grouped
                      else "plain JSON objects of different keys (some lack the key)" if case["k"] == "plain-json"
                      else "records of two same-name descriptors (one lacks the field)",
                      "raised / rest lost" if (err or swallowed) else "different records"),
                   detail={"selector": expr, "order": order, "via": via, "format": fmt, "expected_out": expected, "actual_out": actual,
                           "exception": repr(err)[:300] if err else None, "swallowed_log": swallowed[:3],
                           "input": [repr(r)[:120] for r in records[:6]]})
+
+
+GEN_MISSING = [
+    # (expression, expected as a function of the record): iterating a missing field yields nothing, a comparison with it is false
+    ("any(t == l for t in r.l for l in r.zz)", lambda r: False), ("all(t == l for t in r.l for l in r.zz)", lambda r: True),
+    ("any(a == c for a in r.l for b in r.nl for c in r.zz)", lambda r: False), ("all(a != c for a in r.l for b in r.zz for c in r.nl)", lambda r: True),
+    ("any(x == 1 for x in r.zz)", lambda r: False), ("all(x == 1 for x in r.zz)", lambda r: True),
+    ("any(x == y for y in r.zz for x in r.l)", lambda r: False), ("any(x.a == 1 for x in r.zz)", lambda r: False),
+    ("any(y == 1 for x in r.l for y in (z for z in r.zz))", lambda r: False), ("all(y == 1 for x in r.l for y in (z + 1 for z in r.zz.a))", lambda r: True),
+    ("any(x == x for x in r.l if x in r.zz)", lambda r: False), ("any(True for x in r.l if x == r.zz)", lambda r: False),
+    ("all(x != 'q-q' for x in r.l if r.zz > 1)", lambda r: True), ("any(x == x for x in r.l if not (x in r.zz))", lambda r: bool(r.l)),
+    ("any(x == r.zz for x in r.l)", lambda r: False), ("all(x != r.zz for x in r.l)", lambda r: not r.l), ("any(r.zz < x for x in r.nl)", lambda r: False),
+    ("1 in (x for x in r.zz)", lambda r: False), ("'x' in (y for y in r.zz for z in r.l)", lambda r: False),
+    ("any(x == 1 for x in r.zz) or r.n == r.n", lambda r: True), ("not any(x == 1 for x in r.zz)", lambda r: True),
+    ("any(any(y == x for y in r.zz) for x in r.l)", lambda r: False), ("all(any(y == x for y in r.zz) for x in r.l)", lambda r: not r.l),
+    ("any(x == 1 for x in r.zz.items)", lambda r: False), ("any(x == 1 for x in r.sub.zz)", lambda r: False),
+]
+
+
+def exec_gen_missing(ctx, case):
+    rec = pool_for(ctx, case["pool"])[case["rec"]]
+    expr, want_fn = GEN_MISSING[case["gi"]]
+    if "r.sub." in expr and rec.sub is None:
+        return
+    want = bool(want_fn(rec))
+    ctx.cell("generator-over-missing", "clause" if " for " in expr else "other")
+    ctx.nontrivial("gen-missing", expr, case["pool"], case["rec"])
+    for wrap, flip in (("%s", False), ("not (%s)", True)):
+        e = wrap % expr
+        for engine, cls in engines():
+            got, exc = run_engine(cls, e, rec)
+            ctx.ev()
+            ctx.event("evaluations:" + engine)
+            if got == ("V", want != flip):
+                ctx.event("held")
+                continue
+            category = "nested" if "r.sub." in expr else "iter"
+            key = classify_derived(engine, category, got, exc)
+            ctx.event("known:" + key if key else "VIOLATION")
+            ctx.violation(key, "%s engine: a generator over / a comparison with a missing field %s" % (engine, "raised" if got[0] == "E" else "has the wrong value"),
+                          detail={"expression": e, "engine": engine, "expected": want != flip, "result": got[1],
+                                  "exception": repr(exc)[:300] if exc is not None else None, "record": repr(rec)[:800]})
+    ctx.sample({"generator": expr, "expected": want}, kind="gen-missing")
+
+
+# ---- nested records lacking the field (value of a record field, elements of a record[] field) ---------------------
+NESTED_FORMS = {
+    "any": "any(e.pid {op} {x} for e in r.children)", "all": "all(e.pid {op} {x} for e in r.children)", "any-rev": "any({x} {op} e.pid for e in r.children)",
+    "sub": "r.sub.pid {op} {x}", "sub-rev": "{x} {op} r.sub.pid", "sub2": "r.sub.inner.pid {op} {x}", "not-sub": "not (r.sub.pid {op} {x})",
+    "any-if": "any(True for e in r.children if e.pid {op} {x})",
+}
+PYOPS = {"==": lambda a, b: a == b, "!=": lambda a, b: a != b, "<": lambda a, b: a < b, ">": lambda a, b: a > b, "<=": lambda a, b: a <= b,
+         ">=": lambda a, b: a >= b, "in": lambda a, b: a in b, "not in": lambda a, b: a not in b}
+
+
+def nested_templates():
+    out = []
+    for form in NESTED_FORMS:
+        for op in OPS:
+            xs = ["[4, 5]"] if op in ("in", "not in") else ["4", "5"]
+            if op in ("in", "not in") and form.endswith("rev"):
+                continue
+            for x in xs:
+                out.append({"form": form, "op": op, "x": x, "expr": NESTED_FORMS[form].format(op=op, x=x)})
+    return out
+
+
+def build_nested(seed, n):
+    from flow.record import RecordDescriptor
+
+    rng = random.Random(seed)
+    C1 = RecordDescriptor("c08/proc", [("varint", "pid"), ("string", "name")])
+    C2 = RecordDescriptor("c08/file", [("string", "name")])
+    C3 = RecordDescriptor("c08/sock", [("varint", "pid"), ("varint", "uid")])
+    W = RecordDescriptor("c08/wrap", [("record", "inner"), ("string", "name")])
+    P = RecordDescriptor("c08/parent", [("uint32", "seq"), ("record", "sub"), ("record[]", "children")])
+
+    def child():
+        k = rng.randrange(3)
+        if k == 0:
+            return C1(pid=rng.choice([3, 4, 5, 6]), name=rng.choice(selgen.TEXTS))
+        if k == 1:
+            return C2(name=rng.choice(selgen.TEXTS))
+        return C3(pid=rng.choice([4, 5, 9]), uid=rng.choice([0, 1000]))
+
+    out = []
+    for i in range(n):
+        sub = child() if rng.random() < 0.6 else W(inner=child(), name="w")
+        out.append(P(seq=i, sub=sub, children=[child() for _ in range(rng.randint(0, 4))]))
+    return out
+
+
+def nested_expected(t, rec):
+    """The value the missing-field rule gives: a comparison on a field the (nested) record lacks is false."""
+    x = ast.literal_eval(t["x"])
+    op = PYOPS[t["op"]]
+
+    def cmp(obj, names, rev=False):
+        for nm in names:
+            if obj is None or nm not in obj._desc.fields:
+                return False
+            obj = getattr(obj, nm)
+        return bool(op(x, obj) if rev else op(obj, x))
+
+    form = t["form"]
+    if form in ("any", "any-if"):
+        return any(cmp(e, ["pid"]) for e in rec.children)
+    if form == "all":
+        return all(cmp(e, ["pid"]) for e in rec.children)
+    if form == "any-rev":
+        return any(cmp(e, ["pid"], True) for e in rec.children)
+    if form == "sub":
+        return cmp(rec.sub, ["pid"])
+    if form == "sub-rev":
+        return cmp(rec.sub, ["pid"], True)
+    if form == "sub2":
+        return cmp(rec.sub, ["inner", "pid"])
+    return not cmp(rec.sub, ["pid"])
+
+
+def build_attr_named(seed, n, fname, order):
+    from flow.record import RecordDescriptor
+
+    rng = random.Random(seed)
+    A = RecordDescriptor("c08/has_" + fname, [("uint32", "seq"), ("string", fname)])
+    B = RecordDescriptor("c08/lacks", [("uint32", "seq"), ("string", "other")])
+    first = [True, False] if order == "with-field-first" else [False, True]
+    out = []
+    for i in range(n):
+        if first[i] if i < 2 else rng.random() < 0.5:
+            out.append(A(**{"seq": i, fname: rng.choice(["v", "x", "a b", "Hello"])}))
+        else:
+            out.append(B(seq=i, other=rng.choice(selgen.TEXTS)))
+    return out
+
+
+ATTR_STREAM_NAMES = ("keys", "values", "items", "get", "copy", "update", "pop", "count", "index", "name", "fields", "type", "desc", "clear")
+ATTR_STREAM_TEMPLATES = ("r.{f} != 'x'", "r.{f} == 'v'", "r.{f} < 'm'", "'a' in r.{f}", "r.{f} >= 'a' and r.{f} != 'Hello'", "not (r.{f} == 'v')", "lower(r.{f}) <= 'v'")
 
 
 def exec_observe(ctx, case):
@@ -948,7 +1233,9 @@ def execute(ctx, case):
     k = case["k"]
     if k == "observe":
         return exec_observe(ctx, case)
-    if k in ("same-name", "grouped", "plain-json"):
+    if k == "gen-missing":
+        return exec_gen_missing(ctx, case)
+    if k in ("same-name", "grouped", "plain-json", "nested", "attr-named"):
         return exec_same_name(ctx, case)
     if k == "table":
         exec_table(ctx, case)
